@@ -31,7 +31,8 @@ ATOMS = [
     "2001-366", "2000-366", "2001-001", "12:00:60", "23:59:60.5Z", "+", "-",
     "", "16#F#", "2#1#", "-2#1#", "2#-1#", "8#7#", "10#9#", ".5", "1.", "+.5",
     "^a", "a:b", "٣", "é", "2001-01-01", "12:00", "T", "Z", "12:00Z",
-    "2001-01-01T12:00:00.5", "+05", "-0530", "+05:30", "0x1F", "1E", "E5",
+    "2001-01-01T12:00:00.5", "2016-366T23:59:60", "2001-001T23:59:60.5Z",
+    "2015-06-30T23:59:60", "23:59:60Z", "2001-12-31T23:59:60.123456789", "+05", "-0530", "+05:30", "0x1F", "1E", "E5",
     "a_", "_a", "a b", "/*", "*/", "#", "<m>", "'", '"', "''", '""', "'a'",
     '"a b"', "a-", "-a", "a+b", "a&b", "1.5e-3", "0",
 ]
@@ -235,6 +236,18 @@ def check_string(rec, pvl, dialect, g, d, enc, s, parsers=None):
             bad("decode_simple_value-type-does-not-fit-class",
                 {"class": cls, "type": type(val).__name__ if st == "ok" else st},
                 f"{s!r} class {cls} -> {st} {val!r}")
+    # the date/time class against the independent reader of the date and time
+    # notations (vlib/datespec.py): what that reader takes for a date, a time,
+    # a date-time or a leap-second text of this dialect is of class date/time
+    from .. import datespec
+    if dialect in datespec.DIALECTS and s.isascii():
+        spec = datespec.read(s, dialect)
+        if spec[0] in ("date", "time", "datetime", "leap"):
+            rec.count("date_time_class_checked_against_the_notation_reader")
+            if cls != "datetime":
+                bad("class-differs-from-the-date-time-notation",
+                    {"class": cls, "notation": spec[0]},
+                    f"{s!r} is a {spec[0]} in the {dialect} notation, classified {cls}")
     # token predicates
     t = Token(s, grammar=g, decoder=d)
     preds = {}
@@ -446,6 +459,7 @@ def finish_kwargs(rec, tier):
                            "writer_unquoted", "exclusivity_checks",
                            "number_or_time_never_a_name_checks",
                            "parser_level_name_checks", "decoder_only_token_checks",
+                           "date_time_class_checked_against_the_notation_reader",
                            "class[keyword]", "class[quoted]", "class[based]",
                            "class[decimal]", "class[datetime]",
                            "class[unquoted]", "class[not-a-value]"),
